@@ -306,6 +306,12 @@ class ExecExpr(ExecCore):
                 if front.is_shared_mutable(attr, member):
                     return [(st, self.shared_container(st, front.cls_qual(owner), attr, member))], []
                 if front.is_const_data(member) or isinstance(member, type):
+                    if not front.member_is_uniform(ty.cls, attr):
+                        # a class-level constant that subclasses override (c_tag, c_namespace, msgtype ...): the value read
+                        # through an instance is the DYNAMIC class's; it is the static class's only if the object is exactly
+                        # of that class -- an obligation, not an assumption
+                        self.oblige(st, CLS(va(base.term)) == front.cls_id(ty.cls), 'exact-class[%s.%s]' % (ty.cls.split(':')[1], attr), 'pre-of-callee')
+                        st.assume(CLS(va(base.term)) == front.cls_id(ty.cls))
                     return [(st, self.lift_py(member, st))], []
                 raise Unsupported('class member %s.%s of type %s' % (ty.cls, attr, type(member).__name__))
             if self.class_assigns_field(ty.cls, attr):
